@@ -150,6 +150,17 @@ def run(E: Engine, rep: Report, tier: str) -> dict:
             if t[0] == "cmp" and t[1] == "Eq" and ((_canon_hash(t[2], "self") and _canon_hash(t[3], "other")) or (_canon_hash(t[3], "self") and _canon_hash(t[2], "other"))):
                 ok = True
     rep.check(ok, "TAINT", "Traps.__eq__|compares-canonical-hash", "equality compares the canonical hashes", "Traps.__eq__ no longer compares _safe_hash() of both sides", E.where(eq[0]) if eq else "")
+    # __hash__ agrees with __eq__: every __hash__ of a Traps subclass is a function of the canonical hash only
+    # (equal objects must hash equal; a label such as the slug or the repr is not part of the equality)
+    n_hash = 0
+    for c in [traps] + P.subclasses(traps):
+        for f in c.methods.get("__hash__", []):
+            n_hash += 1
+            r_ = _unT(_ST(E, f).ret)
+            ok_h = r_ is not None and r_[0] == "call" and r_[1] == ("name", "hash") and len(r_[2]) == 1 and (_canon_hash(r_[2][0], "self") or _isT(r_[2][0], "self.static_hash()") is not None)
+            rep.check(ok_h, "TAINT", f"{c.name}.__hash__|hash-of-canonical-hash", "hash(self._safe_hash())", f"{c.name}.__hash__ returns `{_shT(r_, 80)}`, not a function of the canonical hash alone: two objects that compare equal (same trap set) can now hash differently (e.g. one with a slug, one without), so sets / dict keys / the hash of a frozen Device treat equal layouts as different", E.where(f))
+    if n_hash < 1:
+        raise AnalysisError("anchor: no __hash__ found on Traps or its subclasses")
     sinks = [
         (traps, "traps_dict", None),
         (traps, "_coords_to_traps", None),
@@ -209,6 +220,13 @@ def run(E: Engine, rep: Report, tier: str) -> dict:
                     return True
         return False
 
+    # ... and a coordinate is refused iff it is not a key: trap ID 0 is a valid (falsy) value, so the rejection may not
+    # take the truth value of the looked-up ID
+    for l in Sgt.logged("raise"):
+        for x in _symT.conj_of(l.cond):
+            y = x[1] if x[0] == "not" else x
+            if _isT(y, "self._coords_to_traps.get(Q_k)") is not None or _isT(y, "self._coords_to_traps.get(Q_k, Q_d)") is not None:
+                rep.violation("TAINT", "Traps.get_traps_from_coordinates|absent-key-not-falsy-id", f"get_traps_from_coordinates rejects a coordinate under `{_shT(x, 80)}`, the truth value of the looked-up trap ID: trap 0 (a valid ID) is reported as not part of the layout", E.where(gt, l.node))
     rep.check(bool(keys_) and all(_rounded(k_) for k_ in keys_), "TAINT", "Traps.get_traps_from_coordinates|rounded-key-lookup", "looks the coordinate up after rounding to COORD_PRECISION", f"coordinate lookup is not keyed by the COORD_PRECISION-rounded coordinate ({[_shT(k_, 80) for k_ in keys_][:2]})", E.where(gt))
     rep.floor("TAINT", 18)
 
